@@ -6,6 +6,7 @@ import (
 	"fmt"
 	"go/ast"
 	"go/token"
+	"regexp"
 	"sort"
 	"strconv"
 	"strings"
@@ -49,6 +50,133 @@ func c21RecvName(fd *ast.FuncDecl) string {
 		return id.Name
 	}
 	return ""
+}
+
+
+// c21Bindings is the data-flow fact "which Go argument is bound to which column role" of one
+// repository method: it finds the method's single `tx.ExecContext(ctx, <stmt const>, args…)`,
+// reads the statement text, and pairs every `$n` placeholder — in order of first occurrence in the
+// text, which is how sqlite numbers them — with its role (`set:<column>` left of WHERE,
+// `where:<column><op>` right of it) and with the source text of the argument bound to it.
+func c21Bindings(x *ExtractCtx, rf *ast.File, recv, method string, vals map[string]string) ([][2]string, error) {
+	fd := FindFunc(rf, recv, method)
+	if fd == nil {
+		return nil, fmt.Errorf("repository method %s not found", method)
+	}
+	var call *ast.CallExpr
+	n := 0
+	ast.Inspect(fd.Body, func(m ast.Node) bool {
+		if ce, ok := m.(*ast.CallExpr); ok {
+			if se, ok := ce.Fun.(*ast.SelectorExpr); ok && se.Sel.Name == "ExecContext" {
+				call = ce
+				n++
+			}
+		}
+		return true
+	})
+	if n != 1 || len(call.Args) < 2 {
+		return nil, fmt.Errorf("%s: expected exactly one ExecContext(ctx, stmt, …), found %d", method, n)
+	}
+	id, ok := call.Args[1].(*ast.Ident)
+	if !ok {
+		return nil, fmt.Errorf("%s: statement is not a constant", method)
+	}
+	text, ok := vals[id.Name]
+	if !ok {
+		return nil, fmt.Errorf("%s: statement constant %s not found", method, id.Name)
+	}
+	x.Note("bindings "+method, call)
+	wi := strings.Index(text, " WHERE ")
+	if wi < 0 {
+		return nil, fmt.Errorf("%s: statement without WHERE", id.Name)
+	}
+	re := regexp.MustCompile(`(\w+)\s*(<=|>=|=|<|>)\s*\$(\d+)`)
+	type ph struct{ role, num string }
+	var phs []ph
+	seen := map[string]bool{}
+	for _, m := range re.FindAllStringSubmatchIndex(text, -1) {
+		col, op, num := text[m[2]:m[3]], text[m[4]:m[5]], text[m[6]:m[7]]
+		role := "set:" + col
+		if m[0] > wi {
+			role = "where:" + col + op
+		}
+		if seen[num] {
+			return nil, fmt.Errorf("%s: placeholder $%s used twice", id.Name, num)
+		}
+		seen[num] = true
+		phs = append(phs, ph{role, num})
+	}
+	if strings.Count(text, "$") != len(phs) {
+		return nil, fmt.Errorf("%s: a placeholder is not of the shape `column op $n`: %q", id.Name, text)
+	}
+	args := call.Args[2:]
+	if len(args) != len(phs) {
+		return nil, fmt.Errorf("%s: %d placeholders, %d arguments", method, len(phs), len(args))
+	}
+	out := make([][2]string, len(phs))
+	for i, p := range phs {
+		out[i] = [2]string{p.role, x.Src(args[i])}
+	}
+	return out, nil
+}
+
+
+// c21CallArgs returns the argument texts of the only call of `<x>.<field>.<method>(…)` in fn.
+func c21CallArgs(x *ExtractCtx, fn *ast.FuncDecl, field, method string) ([]string, error) {
+	var found [][]string
+	ast.Inspect(fn.Body, func(n ast.Node) bool {
+		ce, ok := n.(*ast.CallExpr)
+		if !ok {
+			return true
+		}
+		se, ok := ce.Fun.(*ast.SelectorExpr)
+		if !ok || se.Sel.Name != method {
+			return true
+		}
+		if inner, ok := se.X.(*ast.SelectorExpr); !ok || inner.Sel.Name != field {
+			return true
+		}
+		var args []string
+		for _, a := range ce.Args {
+			args = append(args, x.Src(a))
+		}
+		found = append(found, args)
+		x.Note("call "+method, ce)
+		return true
+	})
+	if len(found) != 1 {
+		return nil, fmt.Errorf("%s: expected one call of %s.%s, found %d", fn.Name.Name, field, method, len(found))
+	}
+	return found[0], nil
+}
+
+// c21ParamNames returns the parameter names of a repository method, in order.
+func c21ParamNames(rf *ast.File, recv, method string) ([]string, error) {
+	fd := FindFunc(rf, recv, method)
+	if fd == nil {
+		return nil, fmt.Errorf("repository method %s not found", method)
+	}
+	var names []string
+	for _, f := range fd.Type.Params.List {
+		for _, n := range f.Names {
+			names = append(names, n.Name)
+		}
+	}
+	return names, nil
+}
+
+func c21EmitBindings(x *ExtractCtx, rf *ast.File, vals map[string]string, lean, method string) error {
+	b, err := c21Bindings(x, rf, "sqliteRepository", method, vals)
+	if err != nil {
+		return err
+	}
+	var rows []string
+	for _, p := range b {
+		rows = append(rows, fmt.Sprintf("(%s, %s)", LeanStr(p[0]), LeanStr(p[1])))
+	}
+	fmt.Fprintf(x.Lean, "/-- `%s`: (role of the placeholder, Go argument bound to it), in binding order -/\n", method)
+	fmt.Fprintf(x.Lean, "def %s : List (String × String) := [%s]\n", lean, strings.Join(rows, ", "))
+	return nil
 }
 
 func extractOutboxStorage(x *ExtractCtx) error {
@@ -321,7 +449,32 @@ structure Method where
 	})
 	x.Note("bucketHasVersioningStatus", bh)
 	fmt.Fprintf(w, "def bucketHasVersioningStatusReturns : List String := %s\n", LeanStrList(rets))
-	// the poll interval of waitUntilOutboxEntriesDrained and the worker's poll timer (informational)
+	// which argument is bound to which column of the lease statements (a swapped `now`/`claimUntil`
+	// changes no statement text)
+	fmt.Fprintln(w)
+	for _, e := range [][2]string{{"bindClaim", "ClaimFirstStorageOutboxEntry"}, {"bindFinalize", "DeleteStorageOutboxEntryByClaimOwner"},
+		{"bindRelease", "ReleaseStorageOutboxEntryClaim"}, {"bindExtend", "ExtendStorageOutboxEntryClaim"}} {
+		if err := c21EmitBindings(x, rf, vals, e[0], e[1]); err != nil {
+			return err
+		}
+	}
+	// the times outbox.go hands to the repository, and the order of the repository's parameters
+	for _, e := range [][4]string{{"callClaimArgs", "claimNextOutboxEntry", "ClaimFirstStorageOutboxEntry", "sigClaim"}, {"callExtendArgs", "startStorageOutboxHeartbeat", "ExtendStorageOutboxEntryClaim", "sigExtend"}} {
+		fd := FindFunc(f, "outboxStorage", e[1])
+		if fd == nil {
+			return fmt.Errorf("%s not found", e[1])
+		}
+		args, err := c21CallArgs(x, fd, "storageOutboxEntryRepository", e[2])
+		if err != nil {
+			return err
+		}
+		names, err := c21ParamNames(rf, "sqliteRepository", e[2])
+		if err != nil {
+			return err
+		}
+		fmt.Fprintf(w, "def %s : List String := %s\n", e[0], LeanStrList(args))
+		fmt.Fprintf(w, "def %s : List String := %s\n", e[3], LeanStrList(names))
+	}
 	fmt.Fprintln(w, "\nend Pithos.Gen.OutboxStorage")
 	return nil
 }
